@@ -36,37 +36,62 @@ Proof.
   rewrite <- (add_assoc _ L). apply IH.
 Qed.
 
+Hypothesis SC : sum_closed o.
+
+Lemma fold_add_nonnull t : forall a, is_null o a = false -> (forall x, In x t -> is_null o x = false) ->
+  is_null o (fold_left (add o) t a) = false.
+Proof.
+  induction t as [|x t IH]; intros a Ha Ht; simpl; auto.
+  apply IH; [apply (proj1 SC); auto; apply Ht; left; auto | intros; apply Ht; right; auto].
+Qed.
+
+Lemma sum_from0_nonnull t : (forall x, In x t -> is_null o x = false) -> is_null o (sum_from o 0 (zero o) t) = false.
+Proof.
+  intros Ht. unfold sum_from. simpl. destruct t as [|h t]; [apply SC|].
+  apply fold_add_nonnull; [apply Ht; left; auto | intros; apply Ht; right; auto].
+Qed.
+
 Lemma sum_from_merge (t1 t2 : list V) :
+  (forall x, In x t1 -> is_null o x = false) -> (forall x, In x t2 -> is_null o x = false) ->
   let a1 := sum_from o 0 (zero o) t1 in let c1 := len t1 in
   sum_from o c1 a1 t2 =
     (if len t2 =? 0 then a1
      else fst (r_sum o a1 (sum_from o 0 (zero o) t2) c1)).
 Proof.
-  simpl. destruct t2 as [|h t].
+  intros H1 H2. simpl. destruct t2 as [|h t].
   - simpl. unfold sum_from. destruct (len t1 =? 0); reflexivity.
-  - rewrite len_cons_nz. unfold r_sum, truthy, sum_from at 1.
+  - rewrite len_cons_nz. rewrite r_sum_nonnull by (apply sum_from0_nonnull; auto).
+    cbn [fst]. unfold truthy, sum_from at 1.
     destruct (len t1 =? 0) eqn:E; simpl.
     + reflexivity.
     + unfold sum_from at 2. simpl. apply fold_add_shift.
 Qed.
 
+Lemma nn_all_nonnull l x : In x (nn l) -> is_null o x = false.
+Proof. apply nn_nonnull. Qed.
+
 Lemma merges_nansum : merges (r_nansum o) (r_sum o) (zero o).
 Proof.
-  intros l1 l2. rewrite series_app. rewrite !nansum_series by lia. unfold merge_pair. cbn [fst snd].
-  rewrite !Z.add_0_l. f_equal. apply sum_from_merge.
+  intros l1 l2. rewrite series_app. rewrite !nansum_series by lia.
+  unfold merge_pair. cbn [fst snd].
+  rewrite !Z.add_0_l. f_equal. apply sum_from_merge; apply nn_all_nonnull.
 Qed.
 
-Lemma merges_sum : merges (r_sum o) (r_sum o) (zero o).
+Lemma merges_sum : (forall x, is_null o x = false) -> merges (r_sum o) (r_sum o) (zero o).
 Proof.
-  intros l1 l2. rewrite series_app. rewrite !sum_series by lia. unfold merge_pair. cbn [fst snd].
-  rewrite !Z.add_0_l. f_equal. apply sum_from_merge.
+  intros Hnn l1 l2. rewrite series_app. rewrite !sum_series by (auto; lia).
+  unfold merge_pair. cbn [fst snd].
+  rewrite !Z.add_0_l. f_equal. apply sum_from_merge; auto.
 Qed.
 
 Lemma merges_nansum_squares : merges (r_nansum_squares o) (r_sum o) (zero o).
 Proof.
-  intros l1 l2. rewrite series_app. rewrite !nansum_squares_series by lia. unfold merge_pair. cbn [fst snd].
+  intros l1 l2. rewrite series_app. rewrite !nansum_squares_series by lia.
+  unfold merge_pair. cbn [fst snd].
   rewrite !Z.add_0_l. f_equal.
-  pose proof (sum_from_merge (map (sq o) (nn l1)) (map (sq o) (nn l2))) as H. simpl in H.
+  assert (Hsq : forall l x, In x (map (sq o) (nn l)) -> is_null o x = false).
+  { intros l x Hx. apply in_map_iff in Hx. destruct Hx as [y [<- Hy]]. apply (proj1 (proj2 SC)). now apply nn_nonnull in Hy. }
+  pose proof (sum_from_merge (map (sq o) (nn l1)) (map (sq o) (nn l2)) (Hsq l1) (Hsq l2)) as H. simpl in H.
   rewrite !map_length in H. exact H.
 Qed.
 
